@@ -417,13 +417,12 @@ def main(argv=None):
                             pass
                     _HUNG_TEARDOWN.append(True)
             else:
-                try:
-                    mod.work(v["item"], c2)
-                except Exception:
-                    if s not in c2.viol_counts:
-                        print("HARNESS-ERROR: replay of violating item raised")
-                        traceback.print_exc()
-                        return 2
+                c2 = _worker_run(v["item"])  # the same path as in the pool (incl. the declared divergence rule)
+                he = c2.extra.pop("__harness_error__", None)
+                if he is not None and s not in c2.viol_counts:
+                    print("HARNESS-ERROR: replay of violating item raised")
+                    print(he.get("trace", "")[-2000:])
+                    return 2
             if s not in c2.viol_counts and getattr(mod, "REPLAY_MATCH", "signature") == "entry":
                 # checks whose subject IS nondeterminism (C09): the failure kind is an attribution that may
                 # legitimately differ between two executions; the replay must reproduce a violation at the
